@@ -198,28 +198,55 @@ def check(run, views, tier, with_ops=True):
                            "no loop over the remaining operation attributes", site(b))
             # other groups: each behind its tag; the operation group excluded
             for g in others:
-                excl = False
-                for s in subterms(g.iter):
-                    if s[0] == "closure":
-                        cps = closure_paths(b, s)
-                        # the filter must be exactly `tag != OperationAttributes`: every other group is emitted, empty or not
-                        fr = cps[0].ret if len(cps) == 1 else None
-                        if fr is not None and fr[0] == "un" and fr[1] == "Not" and fr[2][0] == "bin" and fr[2][1] == "Eq":
-                            fr = ("bin", "Ne", fr[2][2], fr[2][3])       # !(a == b)
-                        if fr is not None and fr[0] == "bin" and fr[1] == "Ne":
-                            sides = [fr[2], fr[3]]
-                            if ("ctor", OP, []) in sides and any(is_call(x, "ipp::attribute::IppAttributeGroup::tag") or (x[0] == "field" and x[2] == "tag") for x in sides):
-                                excl = True
-                run.ob("R-GROUPS", "other-groups loop emits every group except the operation group", excl,
-                       "loop over %s: the filter is not exactly `tag != OperationAttributes` (the operation group would be emitted twice, or other groups dropped)" % tshow(g.iter)[:160], site(b),
-                       key="R-GROUPS|%s|exclude-op" % FN)
-                # ... in message order: the loop runs directly over the filtered group list, nothing regroups or reorders it
-                outer = [x[1] for x in subterms(g.iter) if x[0] == "call"]      # closure bodies (the filter predicate) are judged above
-                extra = sorted(c for c in outer if c.split("::")[-1] not in ("filter", "iter", "into_iter", "groups", "deref", "as_slice", "as_ref", "by_ref"))
+                # the loop runs over the group list (a `.filter(..)` on it has been turned into a condition of the body by the path builder):
+                # a body path emits a group exactly when the path assumes `tag != OperationAttributes`, and nothing else is assumed
+                def op_test(c):
+                    """-> True if the condition says 'this group is not the operation group', False if it says it is, None otherwise."""
+                    if c[0] != "if":
+                        return None
+                    t, pol = c[1], c[2]
+                    while isinstance(t, tuple) and t[0] == "un" and t[1] == "Not":
+                        t, pol = t[2], not pol
+                    if not (isinstance(t, tuple) and t[0] == "bin" and t[1] in ("Ne", "Eq")):
+                        return None
+                    sides = [t[2], t[3]]
+                    if ("ctor", OP, []) in sides and any(is_call(x, "ipp::attribute::IppAttributeGroup::tag") or (x[0] == "field" and x[2] == "tag") for x in sides):
+                        return (t[1] == "Ne") == pol
+                    return None
+                excl, why_x = True, ""
+                emitting = 0
+                for conds, bevs, _k in g.bodies:
+                    tests = [op_test(c) for c in conds]
+                    known = [x for x in tests if x is not None]
+                    extra = [c for c, x in zip(conds, tests) if x is None and c[0] in ("if", "match", "guard")]
+                    emits = bool(list(flat_puts(bevs)))
+                    if emits:
+                        emitting += 1
+                        if known != [True] or extra:
+                            # loop-internal conditions of the attribute loop are inside nested events, not here: anything at group level is a filter
+                            excl, why_x = False, "a group is emitted under [%s]" % " && ".join(cshow(c) for c in conds)[:160]
+                    elif known != [False] or extra:
+                        excl, why_x = False, "a group is skipped under [%s]" % " && ".join(cshow(c) for c in conds)[:160]
+                run.ob("R-GROUPS", "other-groups loop emits every group except the operation group", excl and emitting >= 1,
+                       "loop over %s: the filter is not exactly `tag != OperationAttributes` (the operation group would be emitted twice, or other groups dropped): %s" % (
+                           tshow(g.iter)[:120], why_x), site(b), key="R-GROUPS|%s|exclude-op" % FN)
+                # ... in message order: the loop runs directly over the group list, nothing regroups or reorders it
+                outer = [x[1] for x in subterms(g.iter) if x[0] == "call"]
+                extra = sorted(c for c in outer if c.split("::")[-1] not in ("iter", "into_iter", "groups", "deref", "as_slice", "as_ref", "by_ref"))
                 run.ob("R-GROUPS", "other groups are emitted in message order", not extra,
                        "the group loop runs over %s: %s regroup or reorder the message's groups (decoding the output no longer gives the message that was encoded)" % (
                            tshow(g.iter)[:140], [c.split("::")[-1] for c in extra]), site(b), key="R-GROUPS|%s|message-order|%s" % (FN, ",".join(c.split("::")[-1] for c in extra)))
                 for conds, bevs, _k in g.bodies:
+                    if not list(flat_puts(bevs)):
+                        continue
+                    # inside a non-operation group every attribute is written, unconditionally, once: the nested attribute loop has no filter
+                    for inner in [e for e in bevs if e.tag == "for"]:
+                        for conds2, bevs2, k2 in inner.bodies:
+                            flt = [c for c in conds2 if c[0] in ("if", "match", "guard")]
+                            n_put = len([e for e in flat_puts(bevs2)])
+                            run.ob("R-GROUPS", "a non-operation group writes every one of its attributes", not flt and n_put == 1 and k2 == "fall",
+                                   "the attribute loop of the other groups emits %d value(s) under [%s]: attributes of job / printer / unsupported groups are filtered or repeated" % (
+                                       n_put, " && ".join(cshow(c) for c in flt)[:160]), site(b), key="R-GROUPS|%s|other-group-attributes" % FN)
                     fe = bevs[0] if bevs else None
                     ok = fe is not None and fe.tag == "put" and fe.kind == "u8" and fe.value[0] == "cast" and \
                         is_call(fe.value[2], "ipp::attribute::IppAttributeGroup::tag")
